@@ -267,10 +267,22 @@ where
             .map(|variant| variant.emit_dispatch_leg())
     }
 
+    /// Names under which the variants are (de)serialized, i.e. the variant names with serde's
+    /// `rename_all = "snake_case"` rule applied. `convert_case` splits words differently
+    /// (e.g. `Foo1` -> `foo_1`, serde: `foo1`) and cannot be used here.
     pub fn as_names_snake_cased(&self) -> Vec<String> {
         self.variants
             .iter()
-            .map(|variant| variant.name.to_string().to_case(Case::Snake))
+            .map(|variant| {
+                let mut snake = String::new();
+                for (i, ch) in variant.name.to_string().char_indices() {
+                    if i > 0 && ch.is_uppercase() {
+                        snake.push('_');
+                    }
+                    snake.push(ch.to_ascii_lowercase());
+                }
+                snake
+            })
             .collect()
     }
 
